@@ -547,6 +547,9 @@ func summaryAtoms(a Atom) []Atom {
 			if _, isC := ConstBool(v); !isC {
 				g := MkAtom(v, a.Pos)
 				cur[g.String()] = g
+				for _, ia := range impliedAtoms(v, a.Pos, 0) {
+					cur[ia.String()] = ia
+				}
 			}
 		}
 		if first {
